@@ -1,37 +1,36 @@
 package harness
 
 import (
+	"errors"
 	"io"
 	"math"
 
+	"github.com/aperturerobotics/util/iocloser"
 	"github.com/aperturerobotics/util/ioseek"
+	"github.com/aperturerobotics/util/iosizer"
 	"gobmc/vrt"
 )
 
-type nullReaderAt struct{}
+// sizedReaderAt models a ReaderAt over exactly size bytes of data (content irrelevant).
+type sizedReaderAt struct{ size int64 }
 
-func (nullReaderAt) ReadAt(p []byte, off int64) (int, error) { return 0, io.EOF }
-
-// H_C20_SeekStep: one Seek from an arbitrary valid position behaves like the reference model
-// (computed without overflow): out-of-range fails and leaves the position unchanged.
-func H_C20_SeekStep() {
-	size := int64(vrt.Int("size", 0, math.MaxInt64))
-	pos0 := int64(vrt.Int("pos0", 0, math.MaxInt64))
-	vrt.Assume(pos0 <= size)
-	off := int64(vrt.Int("off", math.MinInt64, math.MaxInt64))
-	whence := vrt.Int("whence", 0, 3)
-
-	r := ioseek.NewReaderAtSeeker(nullReaderAt{}, size)
-	if pos0 > 0 {
-		p, err := r.Seek(pos0, io.SeekStart)
-		vrt.Assert(err == nil && p == pos0, "seek-start-valid")
+func (s sizedReaderAt) ReadAt(p []byte, off int64) (int, error) {
+	if off < 0 {
+		return 0, errors.New("negative offset")
 	}
-	got, err := r.Seek(off, whence)
-	cur, _ := r.Seek(0, io.SeekCurrent)
+	if off >= s.size {
+		return 0, io.EOF
+	}
+	n := int64(len(p))
+	if n > s.size-off {
+		return int(s.size - off), io.EOF
+	}
+	return int(n), nil
+}
 
-	// reference: target = base + off in unbounded integers
+// seekRef is the overflow-safe reference for Seek from position pos0 in a file of length size.
+func seekRef(size, pos0, off int64, whence int) (want int64, ok bool) {
 	var base int64
-	valid := true
 	switch whence {
 	case io.SeekStart:
 		base = 0
@@ -40,24 +39,224 @@ func H_C20_SeekStep() {
 	case io.SeekEnd:
 		base = size
 	default:
-		valid = false
+		return 0, false
 	}
-	inRange := false
-	var want int64
-	if valid {
-		if off >= 0 {
-			if base <= math.MaxInt64-off { // no overflow
-				want = base + off
-				inRange = want <= size
-			}
-		} else {
-			want = base + off // base >= 0, off < 0: cannot overflow
-			inRange = want >= 0
+	if off >= 0 {
+		if base > math.MaxInt64-off {
+			return 0, false // mathematically beyond size
 		}
+		want = base + off
+		return want, want <= size
 	}
+	want = base + off // base >= 0, off < 0: no overflow
+	return want, want >= 0
+}
+
+// H_C20_SeekStep: ONE INDUCTIVE STEP. From an arbitrary valid state (0 <= pos0 <= size, all
+// 64-bit values) one Seek with arbitrary (off, whence) behaves like the reference: in range =>
+// moves there and returns it; out of range / bad whence => error and position unchanged. The
+// invariant 0 <= pos <= size is re-established, so the step covers histories of any length.
+func H_C20_SeekStep() {
+	size := int64(vrt.Int("size", 0, math.MaxInt64))
+	pos0 := int64(vrt.Int("pos0", 0, math.MaxInt64))
+	vrt.Assume(pos0 <= size)
+	off := int64(vrt.Int("off", math.MinInt64, math.MaxInt64))
+	whence := vrt.Int("whence", -1, 3)
+
+	r := ioseek.NewReaderAtSeeker(sizedReaderAt{size}, size)
+	p, err := r.Seek(pos0, io.SeekStart)
+	vrt.Assert(err == nil && p == pos0, "seek-start-valid")
+
+	got, err := r.Seek(off, whence)
+	cur, cerr := r.Seek(0, io.SeekCurrent)
+	vrt.Assert(cerr == nil, "seek-current-ok")
+
+	want, inRange := seekRef(size, pos0, off, whence)
 	if inRange {
+		vrt.Cover("seek-in-range")
 		vrt.Assert(err == nil && got == want && cur == want, "seek-moves")
 	} else {
+		vrt.Cover("seek-rejected")
 		vrt.Assert(err != nil && cur == pos0, "seek-rejected-unchanged")
 	}
+	vrt.Assert(cur >= 0 && cur <= size, "seek-invariant")
 }
+
+// H_C20_ReadStep: one inductive step for Read: from an arbitrary valid position, Read(p) with
+// an arbitrary buffer length returns what a section reader over size bytes returns and advances
+// the position by exactly the returned count.
+func H_C20_ReadStep() {
+	size := int64(vrt.Int("size", 0, math.MaxInt64))
+	pos0 := int64(vrt.Int("pos0", 0, math.MaxInt64))
+	vrt.Assume(pos0 <= size)
+	buf := vrt.Bytes("p", 8, 8)
+
+	r := ioseek.NewReaderAtSeeker(sizedReaderAt{size}, size)
+	_, err := r.Seek(pos0, io.SeekStart)
+	vrt.Assert(err == nil, "seek-start-valid")
+	n, rerr := r.Read(buf)
+	cur, _ := r.Seek(0, io.SeekCurrent)
+
+	// reference
+	avail := size - pos0
+	want := int64(len(buf))
+	eof := false
+	if pos0 >= size {
+		want, eof = 0, true
+	} else if want > avail {
+		want, eof = avail, true
+	}
+	vrt.Assert(int64(n) == want, "read-count")
+	vrt.Assert((rerr == io.EOF) == eof && (rerr == nil) == !eof, "read-eof")
+	vrt.Assert(cur == pos0+want, "read-advances")
+	vrt.Assert(cur >= 0 && cur <= size, "read-invariant")
+}
+
+// ---- iosizer ----
+
+type scriptRW struct {
+	k int
+}
+
+func (s *scriptRW) Read(p []byte) (int, error) {
+	n := vrtN(s.k, len(p))
+	s.k++
+	var err error
+	if vrtB(s.k) {
+		err = io.ErrUnexpectedEOF
+	}
+	return n, err
+}
+
+func (s *scriptRW) Write(p []byte) (int, error) {
+	n := vrtN(s.k, len(p))
+	s.k++
+	var err error
+	if vrtB(s.k) {
+		err = io.ErrShortWrite
+	}
+	return n, err
+}
+
+// vrtN / vrtB: the k-th scripted outcome (distinct input names per call index).
+func vrtN(k, max int) int {
+	var n int
+	switch k {
+	case 0:
+		n = vrt.Int("n0", 0, 8)
+	case 1:
+		n = vrt.Int("n1", 0, 8)
+	case 2:
+		n = vrt.Int("n2", 0, 8)
+	default:
+		n = vrt.Int("n3", 0, 8)
+	}
+	vrt.Assume(n <= max)
+	return n
+}
+
+func vrtB(k int) bool {
+	switch k {
+	case 1:
+		return vrt.Bool("e0")
+	case 2:
+		return vrt.Bool("e1")
+	case 3:
+		return vrt.Bool("e2")
+	}
+	return vrt.Bool("e3")
+}
+
+// H_C20_Sizer: four calls (each Read or Write, symbolic), wrapped streams return arbitrary
+// (n, err) with 0 <= n <= len(p): the total equals the sum of the returned counts, and every
+// call returns exactly what the wrapped stream returned.
+func H_C20_Sizer() {
+	rw := &scriptRW{}
+	s := iosizer.NewSizeReadWriter(rw, rw)
+	var sum uint64
+	b0 := vrt.Bytes("b0", 8, 8)
+	isRead := [4]bool{vrt.Bool("r0"), vrt.Bool("r1"), vrt.Bool("r2"), vrt.Bool("r3")}
+	for i := 0; i < 4; i++ {
+		var n int
+		if isRead[i] {
+			n, _ = s.Read(b0)
+		} else {
+			n, _ = s.Write(b0)
+		}
+		vrt.Assert(n >= 0 && n <= len(b0), "sizer-count-range")
+		sum += uint64(n)
+		vrt.Assert(s.TotalSize() == sum, "sizer-total")
+	}
+	// nil streams report EOF and count nothing
+	z := iosizer.NewSizeReadWriter(nil, nil)
+	n, err := z.Read(b0)
+	vrt.Assert(n == 0 && err == io.EOF && z.TotalSize() == 0, "sizer-nil-reader")
+}
+
+// ---- iocloser ----
+
+type countRW struct {
+	reads, writes int
+}
+
+func (c *countRW) Read(p []byte) (int, error)  { c.reads++; return len(p), nil }
+func (c *countRW) Write(p []byte) (int, error) { c.writes++; return len(p), nil }
+
+// H_C20_Closer: histories of four operations (Read/Write vs Close, symbolic) on a ReadCloser
+// and a WriteCloser over counting stubs: data passes through until Close; the close function
+// runs exactly once (and its error is returned by that Close); afterwards EOF is reported and
+// the wrapped stream is not touched.
+func H_C20_Closer() {
+	errClose := errors.New("close failed")
+	under := &countRW{}
+	nclose := 0
+	closeFn := func() error { nclose++; return errClose }
+	rc := iocloser.NewReadCloser(under, closeFn)
+	wc := iocloser.NewWriteCloser(under, closeFn)
+	buf := vrt.Bytes("b", 4, 4)
+	ops := [4]int{vrt.Int("op0", 0, 3), vrt.Int("op1", 0, 3), vrt.Int("op2", 0, 3), vrt.Int("op3", 0, 3)}
+	rClosed, wClosed := false, false
+	wantReads, wantWrites, wantClose := 0, 0, 0
+	for i := 0; i < 4; i++ {
+		switch ops[i] {
+		case 0:
+			n, err := rc.Read(buf)
+			if rClosed {
+				vrt.Assert(n == 0 && err == io.EOF, "closer-read-after-close")
+			} else {
+				wantReads++
+				vrt.Assert(n == len(buf) && err == nil, "closer-read-through")
+			}
+		case 1:
+			n, err := wc.Write(buf)
+			if wClosed {
+				vrt.Assert(n == 0 && err == io.EOF, "closer-write-after-close")
+			} else {
+				wantWrites++
+				vrt.Assert(n == len(buf) && err == nil, "closer-write-through")
+			}
+		case 2:
+			err := rc.Close()
+			if rClosed {
+				vrt.Assert(err == nil, "closer-second-close-nil")
+			} else {
+				wantClose++
+				vrt.Assert(err == errClose, "closer-close-error")
+			}
+			rClosed = true
+		default:
+			err := wc.Close()
+			if wClosed {
+				vrt.Assert(err == nil, "closer-second-close-nil")
+			} else {
+				wantClose++
+				vrt.Assert(err == errClose, "closer-close-error")
+			}
+			wClosed = true
+		}
+		vrt.Assert(under.reads == wantReads && under.writes == wantWrites, "closer-underlying-calls")
+		vrt.Assert(nclose == wantClose, "closer-close-once")
+	}
+}
+
+// ---- unique ----
